@@ -76,7 +76,7 @@ func highestCommon(a, b *mchain) int {
 //	block chunks : ok slow late silent err few many range fork unlinked forgefirst dup empty
 //	hashes       : ok slow late silent err few many manycount prev midfork edgefork empty dup
 //	ancestor     : ok slow late silent nil bogus above low dup
-//	hash-by-no   : ok slow late silent err wrong nilhash dup
+//	hash-by-no   : ok slow late silent err wrong nilhash dup edge
 //	anchors      : ok slow err
 //	add block    : ok slow err dup wronghash
 type Scenario struct {
@@ -180,7 +180,7 @@ var addFaults = []string{"slow", "err", "dup", "wronghash"}
 
 // classes whose trigger is a response the real p2p layer cannot produce twice / a lying hash
 // list; listed in SKIP_CLASSES they are not generated (see main.go).
-var suspectClasses = []string{"dup-hno", "dup-hash", "edgefork", "forgefirst", "nopeers", "stale-addrsp"}
+var suspectClasses = []string{"hno-at-timeout", "dup-hno", "dup-hash", "edgefork", "forgefirst", "nopeers", "stale-addrsp"}
 
 func baseScenario(r *rand.Rand, id int) *Scenario {
 	s := &Scenario{ID: id, Seed: r.Int63()}
@@ -477,6 +477,14 @@ func genScenarios(r *rand.Rand, quick bool, skip map[string]bool) []*Scenario {
 			s.SideFork = r.Intn(s.Fork + 1)
 			s.Hash = []string{"edgefork", "edgefork", "edgefork"}
 		})
+		for j := 0; j < 4; j++ {
+			add("hno-at-timeout", func(s *Scenario) {
+				s.FullScan = true
+				s.LocalExtra = 2 + r.Intn(8)
+				s.RemoteExtra = s.LocalExtra + 2 + r.Intn(5)
+				s.Hno = []string{"edge"}
+			})
+		}
 		add("stale-addrsp", func(s *Scenario) {
 			s.Stale = true
 		})
